@@ -31,7 +31,7 @@ CHECKS = {
         text=('Abstract expression trees are rendered with minimal and with full parentheses, parsed by the library, and the '
               'parsed tree (kinds, operand order, symbol binding, literal values bit for bit) is compared with the abstract tree. '
               'All (parent form, slot, child form) triples are enumerated in every tier, deeper trees are drawn by Hypothesis, '
-              'literal boundary texts are checked against exact integer / correctly rounded double values.'),
+              'literal boundary texts are checked against exact integer / correctly rounded double values; sums over the instances of a dynamic template must take the same body with and without parentheses around it.'),
         design_ref='DESIGN.md 4/C02',
         note=('Trusted: the reference operator table (gen_expr.py), Python float() as correctly rounded conversion, the oracle '
               'server dump (public accessors only). Contexts: S_EXPRESSION and the assignment label of an XML model whose character data is spelled in six ways - entities, CDATA, text + CDATA, XML comment inside, numeric references (quick) plus query, update-list and initialiser contexts (thorough).'),
@@ -41,7 +41,7 @@ CHECKS = {
         technique='round-trip property-based testing: parse -> str() -> parse -> str(), canonical trees compared (alpha-normalised binders, bit-exact doubles); operator-pair enumeration; typed query generators for every query form; failures localised to a minimal subtree before matching known findings; coverage-guided fuzz feeder with the round-trip oracle inside the target',
         category='exploration',
         text=('For untyped expression trees (all depth-2 operator pairs + random trees) and typed queries of every query form '
-              'on three model flavours, the library\'s own string conversion must not throw, its output must be accepted in the '
+              'on three model flavours, the library\'s own string conversion (applied to the tree of the minimally and of the fully parenthesised text) must not throw, its output must be accepted in the '
               'same scope without diagnostics, give a structurally equal tree and print identically again. Inputs that do not '
               'parse cleanly are outside the domain and counted as filtered. A fuzz layer (fz_xml, fz_query with the oracle '
               'inside) feeds whatever expressions the fuzzer gets accepted; its artifacts are confirmed through the oracle server.'),
@@ -55,7 +55,7 @@ CHECKS = {
         technique='model-based property testing: abstract model -> XML rendering with layout noise -> parse -> projection of the document compared with the generator\'s own expected projection (builder-only exact; Document* overload with the documented invariant rewrite normalised)',
         category='exploration',
         text=('Generated abstract models (templates, parameters, declarations, locations, branchpoints, init, edges with all label '
-              'kinds, instantiations incl. partial and chained, system line with priorities; a quarter with unusual but valid identifiers: leading underscores, $ and #, soft keywords, names the sources compare with) are rendered to XML (layout noise incl. labels that do not go to the grammar and character data in pieces around XML comments / CDATA sections) and parsed; every '
+              'kinds in any order within a transition, names with white space around them, instantiations incl. partial and chained, system line with priorities; a quarter with unusual but valid identifiers: leading underscores, $ and #, soft keywords, names the sources compare with) are rendered to XML (layout noise incl. labels that do not go to the grammar and character data in pieces around XML comments / CDATA sections) and parsed; every '
               'element the statement lists must appear in the document in source order, attached to the right owner, with the '
               'right expression trees, endpoints, flags and parameter-to-argument mapping.'),
         design_ref='DESIGN.md 4/C04',
@@ -64,7 +64,7 @@ CHECKS = {
     ),
     'C05': dict(
         engine='oracle-server + Hypothesis model generator (harness/py/prop_C05.py)',
-        technique='differential testing of the two front ends: the same abstract model rendered as XML and as XTA, parsed through the Document* overloads, documents/diagnostic multisets/verdicts compared; one injected fault per model in a third of the cases',
+        technique='differential testing of the two front ends: the same abstract model rendered as XML and as XTA, parsed through the Document* overloads, documents/diagnostic multisets/verdicts compared; one injected fault per model in a third of the cases (unknown identifiers, type errors, side effects, bad argument counts, a location named like a template variable)',
         category='exploration',
         text=('The XML reader path and the XTA grammar path (ProcDecl/States/Transitions incl. the chained -> form, commit/urgent '
               'lists, -u->) must produce the same declarations, templates, locations, flags, edges, labels, processes, the same '
@@ -82,7 +82,7 @@ CHECKS = {
               'laws of the statement are evaluated: deep clones are equal, share no node and are independent under set_type and '
               'child replacement; subst replaces exactly the IDENTIFIER nodes of the symbol (compared with a textual replacement '
               'on the canonical dump), is pure and is the identity for s:=s and for absent symbols; equal is reflexive, '
-              'symmetric, transitive, implies equal text and distinguishes every single-node perturbation; every child index '
+              'symmetric, transitive, implies equal text (also after the text was asked for and a descendant replaced) and distinguishes every single-node perturbation; every child index '
               'below get_size() is accessed under ASan. 143 node kinds occur in a quick run. type_t::subst is held to the same '
               'laws (exact / pure / identity) on every (template parameter, frame variable) pair: range bounds, array sizes and '
               'record fields that mention the parameter under any operator. equal() is also evaluated between the expressions of several documents alive in one process (string constants live in per-document tables): symmetric, and equal implies equal text.'),
@@ -108,7 +108,7 @@ CHECKS = {
         text=('For each generated accepted model with layout noise, every text block x spread token positions x applicable fault '
               'kind is enumerated; each reported error/warning must carry a path selecting exactly one element, a line inside '
               'that block, columns inside that line with start<=end, be attributed to the faulted block (all of them for '
-              'non-declaring labels) and, for an undeclared identifier, cover exactly the identifier.'),
+              'non-declaring labels) and, for an undeclared identifier, cover exactly the identifier. Declaration blocks also get semantic faults on the size of an array declared by size (not constant, a clock, ill typed).'),
         design_ref='DESIGN.md 4/C06',
         note=('In declaring blocks only syntax-breaking faults are injected (other edits can be valid declarations that break their '
               'users). A mutation that yields no error anywhere is not a fault and is skipped (counted). The XTA part checks line and '
@@ -228,7 +228,7 @@ CHECKS = {
               'function locals and parameters by value and by reference, iteration and select binders; in update labels and in '
               'function bodies) x 25 write forms (every assignment operator, ++/--, inline-if lvalues with the const branch on '
               'either side, results of assignments as lvalues, reference arguments of functions), whole-object writes, reference '
-              'arguments of template instantiations and quantifier binders are enumerated completely. The write to the constant '
+              'arguments of template instantiations and of spawn T(..), and quantifier binders are enumerated completely. The write to the constant '
               'must be rejected and its mutable twin accepted.'),
         design_ref='DESIGN.md 4/C12',
         note=('Exhaustive for the stated finite cell table only. The "via comma" form of the quantifier text is not expressible in '
